@@ -85,7 +85,7 @@ def _run(dev, spec, nsteps, save_every, output="file", progress_interval=0, seed
         else:
             o["solve_time"] = T
         opts = build.make_options(o, dev, output_file=path)
-        solver = build.make_solver(dev, opts, applied_vector_potential=build.make_vector_potential(spec["field"], dev, opts.field_units),
+        solver = build.make_solver(dev, opts, applied_vector_potential=build.make_vector_potential(spec["field"], dev, opts.field_units, opts.solve_time),
                                    terminal_currents=build.make_currents(spec["currents"], opts.solve_time), seed_solution=seed_solution)
         sol = solver.solve()
         out["solve_time"] = opts.solve_time
